@@ -151,6 +151,10 @@ def check_c04(run: Run, prog: Program) -> None:
     n5 = kinds.rule_K5(run, prog)
     kinds.rule_K6(run, prog)
     run.stats["tolerance_arguments"] = kinds.rule_K8(run, prog)
+    if getattr(run, "focus", None) in (None, "E16"):
+        from geolint import indexing
+
+        run.stats["element_class_cases"] = indexing.rule_E16(run, prog)
     run.floor("concrete collection classes", n1, 5)
     run.floor("element access obligations", n2, 5)
     run.stats.update({"collection_classes": n1, "element_access": n2, "empty_buffers": n5})
